@@ -822,7 +822,10 @@ def run(ctx):
     # stream 0: directly nested open-ended quantifiers (through every kind of group, greedy and lazy, outer minimum 0, inner
     # minimum >= 2): every repeat count of the outer and of the inner loop is drawn separately
     for p in ["(a{2,})*", "^(?:\\w{3,})*$", "((?:xy){2,})*", "(?:a{2,}){0,}?b", "(?P<g>[ab]{3,})+?c", "((a{2,3}){2,})?", "(?:(?:\\d{2,})+x)*",
-              "^((ab){2,}c)*$", "(a{2,}?)*?$", "x(?:y{3,}){1,}", "((a+)+)+b", "(a*)*b", "(?:[^a]{2,})*a"]:
+              "^((ab){2,}c)*$", "(a{2,}?)*?$", "x(?:y{3,}){1,}", "((a+)+)+b", "(a*)*b", "(?:[^a]{2,})*a",
+              # literals, escapes and ranges in the surrogate block and at the ends of the code space
+              "\\ud800", "[\\ud800-\\udbff][\\udc00-\\udfff]", "[\\ud7fe-\\ud801]{3}", "a\\udfffb", "[\\U0010fffe-\\U0010ffff]{2}", "\\x00[\\x00-\\x01]",
+              "[\\ufffc-\\ufffe]\\ufffd"]:
         if observe_pattern(ctx, p, "supported", None, n_rand + 6, runs, stats):
             sup_patterns.append(p)
     # stream 1: the supported grammar
